@@ -24,8 +24,8 @@ mut("C01-m02-colspan-max1-removed", "C01", "caught", "drop the .max(1) that turn
 mut("C01-m03-hard-wrap-no-progress-guard", "C01", "caught", "hard wrap no longer notices that a wide character can never fit",
     [(TR, "if idx == 0 && self.line.width() == 0 {", "if false && idx == 0 && self.line.width() == 0 {")])
 mut("C01-m04-too-narrow-unwrapped", "C01", "caught", "a heading unwraps the too-narrow result instead of propagating it",
-    [(LIB, "renderer.new_sub_renderer(renderer.width_minus(prefix_size, inner_width)?)?;",
-           "renderer.new_sub_renderer(renderer.width_minus(prefix_size, inner_width).unwrap())?;")])
+    [(LIB, "renderer.new_sub_renderer(renderer.width_minus(prefix.len(), inner_width)?)?;\n            renderer.push(sub_builder);\n            pending2(children, move |renderer: &mut TextRenderer<D>, _| {\n                let sub_builder = renderer.pop();\n\n                renderer.start_block()?;\n                renderer.append_subrender(sub_builder, repeat(&prefix[..]))?;\n                renderer.end_block();\n                pushed_style.unwind(renderer);\n                Ok(Some(None))\n            })\n        }\n        Div(children)",
+           "renderer.new_sub_renderer(renderer.width_minus(prefix.len(), inner_width).unwrap())?;\n            renderer.push(sub_builder);\n            pending2(children, move |renderer: &mut TextRenderer<D>, _| {\n                let sub_builder = renderer.pop();\n\n                renderer.start_block()?;\n                renderer.append_subrender(sub_builder, repeat(&prefix[..]))?;\n                renderer.end_block();\n                pushed_style.unwind(renderer);\n                Ok(Some(None))\n            })\n        }\n        Div(children)")])
 mut("C01-m05-dom-drop-recursive", "C01", "caught", "the DOM node loses its iterative Drop",
     [(DOM, "impl Drop for Node {\n    fn drop(&mut self) {\n        let mut nodes = mem::take(&mut *self.children.borrow_mut());",
            "impl Drop for Node {\n    fn drop(&mut self) {\n        if true {\n            return;\n        }\n        let mut nodes = mem::take(&mut *self.children.borrow_mut());")])
